@@ -64,7 +64,7 @@ def violation(prop, tool, kind, detail, corpus_path):
     return {
         "property": prop, "config": tool, "class": f"{tool}-report",
         "sig": f"{prop}|{tool}|{kind}|{site}",
-        "detail": f"{tool} reported {kind} at {frame}; corpus kept at {kept}; report: " + detail[-1500:],
+        "detail": f"{tool} reported {kind} at {frame}; corpus kept at {kept}; report: " + detail[:2500],
         "seed": SEED, "case": first_case(corpus_path),
     }
 
@@ -105,10 +105,10 @@ def miri_stage(prop, mode, n_calls, threads, seeds):
 
 def build_san(kind):
     if kind == "asan":
-        env = {"RUSTFLAGS": "-Zsanitizer=address -Cforce-frame-pointers=yes", "CARGO_TARGET_DIR": f"{BUILD}/asan"}
+        env = {"RUSTFLAGS": "-Zsanitizer=address -Cforce-frame-pointers=yes", "CARGO_TARGET_DIR": f"{BUILD}/asan", "CARGO_PROFILE_DEV_DEBUG": "line-tables-only"}
         cmd = ["cargo", "+nightly", "build", "--offline", "--target", TRIPLE, "--bin", "scv_san"]
     else:
-        env = {"RUSTFLAGS": "-Zsanitizer=thread", "CARGO_TARGET_DIR": f"{BUILD}/tsan"}
+        env = {"RUSTFLAGS": "-Zsanitizer=thread", "CARGO_TARGET_DIR": f"{BUILD}/tsan", "CARGO_PROFILE_DEV_DEBUG": "line-tables-only"}
         cmd = ["cargo", "+nightly", "build", "--offline", "-Zbuild-std", "--target", TRIPLE, "--bin", "scv_san"]
     rc, out = run(cmd, env=env, timeout=1800)
     return rc, out, f"{BUILD}/{kind}/{TRIPLE}/debug/scv_san"
@@ -134,6 +134,10 @@ def asan_stage(prop, n_calls, shards):
             viol.append(violation(prop, "asan", kind.group(1) if kind else "report", out[i:i + 3000], c))
         elif "SAN-DONE" in out:
             done += int(re.search(r"calls=(\d+)", out).group(1))
+        elif rc in (-6, 134) or "non-unwinding panic" in out or "unsafe precondition" in out:
+            # the instrumented build aborted inside a call (e.g. a violated unsafe precondition): C01's
+            reports += 1
+            viol.append(violation(prop, "asan", "abort", out[-2000:], c))
         else:
             inc.append(f"asan shard {k} ended without result (rc={rc}): " + out[-300:].replace("\n", " | "))
         os.remove(c)
